@@ -1015,14 +1015,21 @@ class FakeSocket:
 
     @command((Key(Hash), bytes, Int))
     def hincrby(self, key, field, amount):
-        c = Int.decode(key.value.get(field, b'0')) + amount
+        try:
+            c = Int.decode(key.value.get(field, b'0')) + amount
+        except SimpleError:
+            raise SimpleError(msgs.HASH_NOT_INT_MSG)
         key.value[field] = self._encodeint(c)
         key.updated()
         return c
 
     @command((Key(Hash), bytes, bytes))
     def hincrbyfloat(self, key, field, amount):
-        c = Float.decode(key.value.get(field, b'0')) + Float.decode(amount)
+        try:
+            current = Float.decode(key.value.get(field, b'0'))
+        except SimpleError:
+            raise SimpleError(msgs.HASH_NOT_FLOAT_MSG)
+        c = current + Float.decode(amount)
         if not math.isfinite(c):
             raise SimpleError(msgs.NONFINITE_MSG)
         encoded = self._encodefloat(c, True)
